@@ -11,7 +11,9 @@ import traceback
 
 def main(argv):
     prop, tier, seed, shard, nshards, out = argv[1], argv[2], int(argv[3]), int(argv[4]), int(argv[5]), argv[6]
-    from vf.common import Acc, Ctx, import_sansldap
+    import signal
+
+    from vf.common import Acc, CpuTimeout, Ctx, _on_vtalrm, import_sansldap
 
     import_sansldap()
     mod = importlib.import_module("vf.props." + prop.lower())
@@ -19,11 +21,25 @@ def main(argv):
     acc = Acc(prop)
     t0 = time.time()
     status = "ok"
+    # Per-case CPU watchdog (re-armed by Acc.case()): library code that never returns - in a check that has no finer
+    # watchdog of its own - ends the shard with a violation instead of a wall-clock shard timeout (= inconclusive).
+    budget = float(os.environ.get("VERIF_CASE_CPU", "300" if tier == "quick" else "900"))
+    signal.signal(signal.SIGVTALRM, _on_vtalrm)
+    acc.case_budget = budget
     try:
         mod.run_shard(ctx, acc)
+    except CpuTimeout:
+        tb = traceback.format_exc()
+        frames = [l.strip() for l in tb.splitlines() if "/sansldap/" in l][-3:]
+        acc.case_budget = 0.0
+        acc.violation("case-did-not-return", f"case #{acc.evaluations} of shard {shard}/{nshards} (seed {seed}, {tier}) did not return within {budget:.0f} CPU-seconds; "
+                      f"innermost library frames: {' | '.join(frames) or 'none (harness code)'}", {"shard_case": [tier, seed, shard, nshards, acc.evaluations]})
     except BaseException:
         status = "internal_error"
         acc.notes.append(traceback.format_exc())
+    finally:
+        acc.case_budget = 0.0
+        signal.setitimer(signal.ITIMER_VIRTUAL, 0)
     res = acc.dump()
     res["status"] = status
     res["wall_s"] = time.time() - t0
